@@ -104,6 +104,9 @@ def replay(r):
         steps.append((motifs.index(motif), int(start), C.real_chars(Xa)[0]))
         return real_sub(Xa, motif, start=start, alphabet=alphabet)
     rdes.substitute = sub_log
+    if r.get("history"):
+        for m_ in motifs:
+            real_sub(C.real_onehot([[0] * len(x)], A), m_, start=0, alphabet=alphabet[::-1])
     try:
         Xf = greedy_substitution(M(), X, motifs, y, loss=loss, mask=(None if msk is None else torch.tensor(msk)), tol=r["tol"], max_iter=r["max_iter"], alphabet=alphabet, device="cpu")
     except Exception as e:
@@ -196,6 +199,10 @@ def worker(cfg):
                 table["".join(map(str, seq))] = [float(core.model_value(m, _F(t, list(seq), A))) for t in range(T_OUT)]
             return dict(cfg, x=C.eval_chars(m, xc)[0], y=[float(core.model_value(m, v)) for v in y], tol=float(core.model_value(m, tol)),
                         max_iter=core.model_value(m, max_iter), table=table)
+        if cfg.get("history"):
+            # an earlier design in the same process used the same motif strings with another alphabet ordering
+            for m_ in motifs:
+                real_sub(C.onehot_from_chars(np.zeros((1, L), dtype=object), A), m_, start=0, alphabet=alphabet[::-1])
         try:
             Xf = des.greedy_substitution(model, X, list(motifs), Y, loss=l1, mask=mask_t, tol=tol, max_iter=max_iter, alphabet=alphabet, device="cpu")
         except Unwind:
@@ -278,11 +285,11 @@ def configs(tier):
     if tier == "quick":
         return [dict(A=2, L=3, motifs=["C"], K=2), dict(A=2, L=3, motifs=["CA", "A"], K=1), dict(A=2, L=4, motifs=["AC"], K=1),
                 dict(A=3, L=3, motifs=["G", "CA"], K=1), dict(A=2, L=2, motifs=["CA"], K=1),
-                dict(A=2, L=3, motifs=["C", "AC"], K=1, mask=[True, False])]
+                dict(A=2, L=3, motifs=["C", "AC"], K=1, mask=[True, False]), dict(A=2, L=3, motifs=["CA", "A"], K=1, history=True)]
     return [dict(A=2, L=3, motifs=["C"], K=2), dict(A=2, L=3, motifs=["CA", "A"], K=2), dict(A=2, L=4, motifs=["AC"], K=2),
             dict(A=3, L=3, motifs=["G", "CA"], K=2), dict(A=2, L=2, motifs=["CA"], K=1), dict(A=2, L=5, motifs=["CAC", "A"], K=1),
             dict(A=3, L=4, motifs=["GC", "A", "CAG"], K=1), dict(A=4, L=4, motifs=["T", "GA"], K=1),
-            dict(A=2, L=3, motifs=["C", "AC"], K=2, mask=[True, False]), dict(A=2, L=4, motifs=["CA"], K=1, mask=[False, True])]
+            dict(A=2, L=3, motifs=["C", "AC"], K=2, mask=[True, False]), dict(A=2, L=4, motifs=["CA"], K=1, mask=[False, True]), dict(A=2, L=3, motifs=["CA", "A"], K=1, history=True), dict(A=3, L=3, motifs=["G", "CA"], K=1, history=True)]
 
 
 def main(tier, seed):
